@@ -9,6 +9,7 @@ import (
 	"sync/atomic"
 	"time"
 
+	"github.com/golang/protobuf/proto"
 	"google.golang.org/grpc"
 	"google.golang.org/grpc/metadata"
 
@@ -437,7 +438,11 @@ func (c *callRun) handlerOp(ctx context.Context, ss grpc.ServerStream, dec func(
 		if unaryish || k > len(c.respMsgs) {
 			err = fmt.Errorf("no stream")
 		} else {
-			err = ss.SendMsg(c.respMsgs[k-1])
+			// the handler owns its message again once SendMsg has returned
+			// and reuses it: that must never be visible to the caller
+			own := proto.Clone(c.respMsgs[k-1]).(*gt.Message)
+			err = ss.SendMsg(own)
+			scribble(own)
 		}
 		a.cur.Store("")
 		c.emit("HSendRet", "k", k, "res", classify(err, c.sts))
@@ -491,6 +496,35 @@ func (c *callRun) handlerOp(ctx context.Context, ss grpc.ServerStream, dec func(
 	}
 }
 
+// scribble overwrites a message in place (same backing arrays and maps), the
+// way a program reuses a message object.
+func scribble(m *gt.Message) {
+	for i := range m.Payload {
+		m.Payload[i] ^= 0xff
+	}
+	m.Count = -12345
+	m.Code ^= 0x55
+	for k, v := range m.Headers {
+		for i := range v {
+			v[i] ^= 0xff
+		}
+		m.Headers[k] = v
+	}
+	if m.Headers != nil {
+		m.Headers["scribbled"] = []byte("x")
+	}
+	if m.Trailers != nil {
+		m.Trailers["scribbled"] = []byte("y")
+	}
+	for _, d := range m.ErrorDetails {
+		for i := range d.Value {
+			d.Value[i] ^= 0xff
+		}
+		d.TypeUrl = "scribbled"
+	}
+	m.Payload = append(m.Payload, 's')
+}
+
 // newDest makes a receive destination. It is pre-filled so that a copy that
 // merges instead of overwriting shows up as an altered message.
 func (c *callRun) newDest() *gt.Message {
@@ -542,7 +576,9 @@ func (c *callRun) clientOp(a *actor, op Op) {
 		resp := c.newDest()
 		c.emit("CInvokeCall")
 		a.cur.Store("Invoke")
-		err := c.ch.Invoke(c.ctx, "/verif.Svc/U", c.reqMsgs[0], resp, grpc.Header(&h1), grpc.Trailer(&t1), grpc.Header(&h2), grpc.Trailer(&t2))
+		own := proto.Clone(c.reqMsgs[0]).(*gt.Message)
+		err := c.ch.Invoke(c.ctx, "/verif.Svc/U", own, resp, grpc.Header(&h1), grpc.Trailer(&t1), grpc.Header(&h2), grpc.Trailer(&t2))
+		scribble(own) // the caller reuses its request after the call returned
 		a.cur.Store("")
 		id := 0
 		if err == nil {
@@ -563,7 +599,9 @@ func (c *callRun) clientOp(a *actor, op Op) {
 		k := op.Arg
 		c.emit("CSendCall", "k", k)
 		a.cur.Store("Send")
-		err := c.stream.SendMsg(c.reqMsgs[k-1])
+		own := proto.Clone(c.reqMsgs[k-1]).(*gt.Message)
+		err := c.stream.SendMsg(own)
+		scribble(own) // the caller reuses its message after the send returned
 		a.cur.Store("")
 		c.emit("CSendRet", "k", k, "res", classify(err, c.sts))
 	case "CloseSend":
